@@ -30,7 +30,7 @@ impl<'a> Visitor for V<'a> {
                 return Err(format!("{d}: size() = {} but the encoding has {} bytes", post.size, post.enc.len()));
             }
         }
-        if cx.fam() == FamId::Var {
+        if matches!(cx.fam(), FamId::Var | FamId::Wide) {
             return Ok(()); // exact refusal is claimed for 64-byte signatures only
         }
         if let Some(op) = cx.op {
@@ -123,7 +123,7 @@ fn solve(fam: FamId, keys: &[Secret], seq: u64, op: &Op, target: usize, with_bas
     let base: Vec<(Vec<u8>, Vec<u8>)> = if !with_base { vec![] } else { vec![(b"udp".to_vec(), rlp::encode_uint(9)), (b"ip".to_vec(), rlp::encode_str(&[9, 9, 9, 9]))] };
     let pk = fam.ref_pk(&keys[0].0);
     let pks: Vec<Vec<u8>> = keys.iter().map(|k| fam.ref_pk(&k.0)).collect();
-    let cx = model::Ctx { fam, signer_pk: &pk, fault_pending: false };
+    let cx = model::Ctx { fam, signer_pk: &pk, fault_pending: false, units: crate::keys::var_units(fam, &keys[0].0) };
     let mut len: isize = 100;
     for _ in 0..8 {
         if len < 0 {
@@ -149,7 +149,7 @@ fn solve(fam: FamId, keys: &[Secret], seq: u64, op: &Op, target: usize, with_bas
 
 fn solve_builder(fam: FamId, keys: &[Secret], seq: u64, target: usize) -> Option<History> {
     let pk = fam.ref_pk(&keys[0].0);
-    let cx = model::Ctx { fam, signer_pk: &pk, fault_pending: false };
+    let cx = model::Ctx { fam, signer_pk: &pk, fault_pending: false, units: crate::keys::var_units(fam, &keys[0].0) };
     let mut len: isize = 100;
     for _ in 0..8 {
         if len < 0 {
@@ -223,7 +223,23 @@ impl Property for C09 {
             })
         });
         let ex = [FamId::K256, FamId::Var].into_iter().flat_map(move |f| history::exhaustive(f, if quick { 1 } else { 2 })).map(Case::Hist);
-        Box::new(it.chain(ex))
+        // custom scheme with long signatures: every signature length class 64..=322 through the builder
+        // (tiny content: the outer header grows by two bytes once the signature is included) and one update
+        let wide = (0..37u8).flat_map(|u| {
+            let mut s = [0u8; 32];
+            s[0] = 9;
+            s[31] = u;
+            let keys = vec![Secret(s)];
+            let mk = |calls: Vec<BCall>, ops: Vec<Op>| Case::Hist(History { fam: FamId::Wide, keys: keys.clone(), init: Init::Builder { calls }, ops, fault_at: None, alt_keys: vec![] });
+            vec![
+                mk(vec![], vec![]),
+                mk(vec![BCall::Port { which: PortKey::Udp, port: 9 }], vec![]),
+                mk(vec![BCall::Seq(255)], vec![Op::SetPort { which: PortKey::Tcp, port: 1, k: 0 }]),
+                mk(vec![BCall::AddValue { key: b"z".to_vec(), val: TVal::Bytes(vec![1; 5]) }], vec![Op::SetSeq { seq: 65536, k: 0 }]),
+            ]
+            .into_iter()
+        });
+        Box::new(it.chain(ex).chain(wide))
     }
     fn fuzz_plans(&self) -> Vec<(&'static str, u64)> {
         vec![("history", 10000)]
